@@ -231,6 +231,8 @@ func (c *Client) Connect() error {
 	if c.PostConnectHook != nil {
 		err = c.PostConnectHook()
 		if err != nil {
+			// Without its go routines the session cannot be used: do not leave it open.
+			c.giveUpConnection()
 			return err
 		}
 	}
@@ -270,31 +272,37 @@ func (c *Client) connect() error {
 		c.Session = session
 	}
 	if err != nil {
-		// Try to get the stream close tag from the server.
-		go func() {
-			for {
-				val, err := stanza.NextPacket(c.transport.GetDecoder())
-				if err != nil {
-					// The failure is reported by the error we return: no session was established,
-					// so there is no disconnection to announce (a StreamManager would start a
-					// second reconnection loop from here).
-					return
-				}
-				switch val.(type) {
-				case stanza.StreamClosePacket:
-					// TCP messages should arrive in order, so we can expect to get nothing more after this occurs
-					c.transport.ReceivedStreamClose()
-					return
-				}
-			}
-		}()
-		c.Disconnect()
+		c.giveUpConnection()
 		return err
 	}
 	c.Session.StreamId = streamId
 	c.updateState(StateSessionEstablished)
 
 	return err
+}
+
+// giveUpConnection closes a connection on which no session is going to run: the negotiation
+// failed, or the application's hook refused the session.
+func (c *Client) giveUpConnection() {
+	// Try to get the stream close tag from the server.
+	go func() {
+		for {
+			val, err := stanza.NextPacket(c.transport.GetDecoder())
+			if err != nil {
+				// The failure is reported by the error we return: no session was established,
+				// so there is no disconnection to announce (a StreamManager would start a
+				// second reconnection loop from here).
+				return
+			}
+			switch val.(type) {
+			case stanza.StreamClosePacket:
+				// TCP messages should arrive in order, so we can expect to get nothing more after this occurs
+				c.transport.ReceivedStreamClose()
+				return
+			}
+		}
+	}()
+	c.Disconnect()
 }
 
 // Resume attempts resuming  a Stream Managed session, based on the provided stream management
@@ -308,11 +316,16 @@ func (c *Client) Resume() error {
 	// Execute post reconnect hook. This can be different from the first connection hook, and not trigger roster retrieval
 	// for example.
 	if c.PostResumeHook != nil {
-		err = c.PostResumeHook()
+		if err = c.PostResumeHook(); err != nil {
+			// The application does not take the session: it must not live on beside the one of the
+			// next attempt.
+			c.giveUpConnection()
+			return err
+		}
 	}
 	// The new connection needs its receiver and keepalive too.
 	c.startRoutines()
-	return err
+	return nil
 }
 
 // Disconnect disconnects the client from the server, sending a stream close nonza and closing the TCP connection.
